@@ -46,9 +46,11 @@ func oracle(ops, outs []string) *corr.Violation {
 	encSeen := map[string]map[string]bool{} // block|verifier|sigidx -> encodings delivered as single ticket messages
 	reenc := map[string]bool{}              // block: the same valid ticket arrived in two encodings
 	dupsInMsg := 0
+	foreignInMsg := 0 // tickets whose verifier is not a miner of the block's round (unknown id, or a node of another magic block)
 	note := func(blk string, entries []string) (invalid int) {
 		seen := map[string]bool{}
 		dupsInMsg = 0
+		foreignInMsg = 0
 		for _, e := range entries {
 			f := strings.Split(e, ":")
 			if len(f) == 3 && f[2] == "u" {
@@ -58,8 +60,14 @@ func oracle(ops, outs []string) *corr.Violation {
 				continue
 			}
 			ok := false
+			if f[0][0] != 'n' {
+				foreignInMsg++
+			}
 			if f[0][0] == 'n' {
 				j, err := strconv.Atoi(f[0][1:])
+				if err != nil || j >= n || !inPool(blk, j) {
+					foreignInMsg++
+				}
 				// a ticket counts for the property only if its verifier is a miner of the magic block in force for the
 				// block's round and the signature is individually valid
 				if err == nil && j < n && inPool(blk, j) && indiv[f[0]+"|"+f[1]+"|blk-"+blk] == "true" {
@@ -183,6 +191,9 @@ func oracle(ops, outs []string) *corr.Violation {
 		if treated && len(validFrom[blk]) < thr {
 			what := fmt.Sprintf("block %s is treated as notarized; only %d distinct miners of its round's magic block delivered a valid ticket (threshold %d)", blk, len(validFrom[blk]), thr)
 			switch {
+			case (w[0] == "notarization" || w[0] == "nblock" || w[0] == "ticket") && foreignInMsg > 0 && !unverifiedInBlock[blk]:
+				// a verifying path accepted tickets of somebody who is no miner of the magic block in force for the round
+				return mk(i, "non-member-tickets-counted", what)
 			case (w[0] == "notarization" || w[0] == "nblock") && invalidInMsg == 0 && dupsInMsg > 0 && !unverifiedInBlock[blk]:
 				return mk(i, "duplicate-tickets-counted", what)
 			case (w[0] == "notarization" || w[0] == "nblock") && invalidInMsg > 0 && !unverifiedInBlock[blk]:
